@@ -3,9 +3,35 @@
 
 // cfg: [0] flags16 [1] iftype [2] ipv4 (as wire bytes b0<<24..b3) [3] speed [4] wifi [5] wifi_mode [6] rate [7] rssi (-128..127) [8] fail mask [9] untrunc
 //      [10] mac [11] bssid [12] mtu [13] tos ; blobs: hostname, ssid, ipv6(16)
+static Verdict run_once(const Case &c, World &w, int *ifi_io, int round);
+
+// cfg[14] = what happens between the first and a second Discover on the same instance: 0 nothing more, 1 attributes change,
+//           2 attributes change + quick-discovery Reset, 3 attributes change + topology Reset
 static Verdict run(const Case &c) {
-    Verdict v;
     World w;
+    int ifi = -1;
+    Verdict v = run_once(c, w, &ifi, 0);
+    int mode = (int)c.c(14);
+    if (v.ok && mode) {
+        Case c2 = c;   // second attribute tuple derived from the first: every field changes
+        c2.cfg[0] = (c.c(0) ^ 0x2800) & 0xFFFF; c2.cfg[1] = (c.c(1) + 0x01020304) & 0xFFFFFFFFLL; c2.cfg[2] = (c.c(2) ^ 0x0F0F0F0FLL) & 0xFFFFFFFFLL;
+        c2.cfg[3] = (c.c(3) + 0x00010001) & 0xFFFFFFFFLL; c2.cfg[5] = (c.c(5) + 1) & 0xFF; c2.cfg[6] = (c.c(6) + 0x0101) & 0xFFFF; c2.cfg[7] = -c.c(7) / 2 - 1;
+        c2.cfg[11] = c.c(11) ^ 0x00FF00FF00FFLL;
+        for (size_t b = 0; b < c2.blobs.size(); b++) { for (auto &x : c2.blobs[b]) x = (uint8_t)(x + 1); if (b < 2) { if (c2.blobs[b].size() > 3) c2.blobs[b].resize(c2.blobs[b].size() - 2); else c2.blobs[b].push_back(0x5A); } }
+        Mac m = {{2, 0xAA, 0, 0, 0, 1}};
+        Mac own = mac_from_u64((uint64_t)c.c(10, 0x020000000001LL));
+        if (mode == 2) (void)w.deliver(ifi, mk_simple(BCAST, m, 1, OP_RESET, BCAST, m, 0));
+        if (mode == 3) (void)w.deliver(ifi, mk_simple(BCAST, m, 0, OP_RESET, BCAST, m, 0));
+        (void)own;
+        Verdict v2 = run_once(c2, w, &ifi, 1);
+        if (!v2.ok) { v2.why = "second Hello of the same instance after the interface's attributes changed: " + v2.why; return v2; }
+        v.cls(fmt("second-round-mode-%d", mode));
+    }
+    return v;
+}
+
+static Verdict run_once(const Case &c, World &w, int *ifi_io, int round) {
+    Verdict v;
     IfCfg ic;
     ic.mtu = (size_t)std::max<int64_t>(576, std::min<int64_t>(c.c(12, 1500), 9216));
     ic.flags = (uint32_t)c.c(0) & 0xFFFF; ic.iftype = (uint32_t)c.c(1); ic.speed = (uint32_t)c.c(3);
@@ -21,7 +47,9 @@ static Verdict run(const Case &c) {
     ic.ssid = ssid;
     w.set_hostname(hostname, (int)(c.c(9) & 1));
     vp_global()->fail = (uint32_t)c.c(8) & 0xFFFF0000u;
-    int ifi = w.add_if(ic);
+    int ifi;
+    if (round == 0) { ifi = w.add_if(ic); *ifi_io = ifi; }
+    else { ifi = *ifi_io; size_t keep = w.ctx(ifi)->mtu; ic.mtu = keep; ic.apply(w.ctx(ifi), ifi); }   // same interface context, new attribute values (MTU and address stay)
     Mac m = {{2, 0xAA, 0, 0, 0, 1}};
     std::vector<Ev> tx = sends_only(w.deliver(ifi, mk_discover(m, m, (uint8_t)(c.c(13) & 1), 1, 1, {})));
     if (tx.size() != 1) { v.fail(fmt("Discover answered by %zu frames", tx.size())); return v; }
@@ -90,12 +118,12 @@ int main(int argc, char **argv) {
               "(full 41x41 grid), every RSSI -128..127, rate in 2^16, wired/Wi-Fi, every getter failing independently, both length-return conventions; a Discover is sent and the Hello decoded independently, property by property. "
               "non-trivial = >= 3 multi-byte fields with pairwise different bytes or a name/SSID longer than 32; distinct = digest of the tuple";
     bool ok = true;
-    std::vector<int64_t> base = {0x2000, 6, 0x0A0B0C0D, 0x00989680, 1, 2, 0x0123, -60, 0, 0, 0x02AABBCCDDEELL, 0x0A1122334455LL, 1500, 0};
+    std::vector<int64_t> base = {0x2000, 6, 0x0A0B0C0D, 0x00989680, 1, 2, 0x0123, -60, 0, 0, 0x02AABBCCDDEELL, 0x0A1122334455LL, 1500, 0, 0};
     long k = 0;
     for (size_t hl = 0; hl <= 40 && ok; hl++)
         for (size_t sl = 0; sl <= 40 && ok; sl++) {
             if (k++ % a.nshards != a.shard) continue;
-            Case c; c.cfg = base; c.cfg[9] = (hl + sl) & 1;
+            Case c; c.cfg = base; c.cfg[9] = (hl + sl) & 1; c.cfg[14] = (hl * 41 + sl) % 4;
             c.blobs = {distinct_bytes(hl, 1), distinct_bytes(sl, 7), distinct_bytes(16, 3)};
             ok = one(a, ev, c, "c04-length-grid");
         }
@@ -118,7 +146,7 @@ int main(int argc, char **argv) {
             c.cfg = {*gx::bnd({0, 1, 0x2000, 0x0800, 0x8000, 0xFFFF, 0x0102}, 0, 0xFFFF, 1, 1), *g32(), *g32(), *g32(), *gx::pick({0, 1, 1}), *gx::range<int64_t>(0, 255),
                      *gx::bnd({0, 1, 0xFF, 0x100, 0xFFFF, 0x0102}, 0, 0xFFFF, 1, 1), *gx::range<int64_t>(-128, 127), fail, *gx::pick({0, 1}),
                      *gx::weighted<int64_t>({{1, gx::pick({0, 0xFFFFFFFFFFFFLL})}, {6, gx::range<int64_t>(1, 0xFFFFFFFFFFFELL)}}), *gx::range<int64_t>(0, 0xFFFFFFFFFFFFLL),
-                     *gx::pick({576, 1500, 9216}), *gx::pick({0, 1})};
+                     *gx::pick({576, 1500, 9216}), *gx::pick({0, 1}), *gx::pick({0, 0, 1, 2, 3})};
             c.blobs = {*gx::bytes(0, 40), *gx::bytes(0, 40), *gx::bytes(16, 16)};
             return c;
         });
